@@ -144,3 +144,802 @@ Proof.
   intros nf ld c b H Hin. unfold check_headers in H.
   rewrite forallb_forall in H. apply header_ok_sound. apply H. exact Hin.
 Qed.
+(* ------------------------------------------------------------------ *)
+(** * Lines *)
+
+Lemma take_line_prefix : forall s, exists r, s = take_line s ++ r.
+Proof.
+  induction s as [|c s [r IH]]; cbn [take_line].
+  - exists []. reflexivity.
+  - destruct (Ascii.eqb c nl).
+    + exists s. reflexivity.
+    + exists r. cbn [app]. f_equal. exact IH.
+Qed.
+
+Lemma take_line_app_nl : forall s e,
+  In nl (take_line s) -> take_line (s ++ e) = take_line s.
+Proof.
+  induction s as [|c s IH]; intros e H; cbn [take_line] in H; [destruct H|].
+  cbn [app take_line].
+  destruct (Ascii.eqb c nl) eqn:E; [reflexivity|].
+  f_equal. apply IH. destruct H as [H|H]; [|exact H].
+  subst c. rewrite Ascii.eqb_refl in E. discriminate.
+Qed.
+
+Lemma take_line_In_nl : forall s, In nl s -> In nl (take_line s).
+Proof.
+  induction s as [|c s IH]; intros H; [destruct H|].
+  cbn [take_line]. destruct (Ascii.eqb c nl) eqn:E.
+  - apply Ascii.eqb_eq in E. subst c. left. reflexivity.
+  - right. apply IH. destruct H as [H|H]; [|exact H].
+    subst c. rewrite Ascii.eqb_refl in E. discriminate.
+Qed.
+
+Lemma take_line_incl : forall s x, In x (take_line s) -> In x s.
+Proof.
+  induction s as [|c s IH]; intros x H; cbn [take_line] in H; [exact H|].
+  destruct (Ascii.eqb c nl).
+  - destruct H as [H|[]]. left. exact H.
+  - destruct H as [H|H]; [left; exact H|right; apply IH; exact H].
+Qed.
+
+Lemma print_hdr_In_nl lo hi nc : In nl (print_hdr lo hi nc).
+Proof. rewrite print_hdr_body. apply in_or_app. right. left. reflexivity. Qed.
+
+Lemma print_hdr_nonnil lo hi nc : print_hdr lo hi nc <> [].
+Proof.
+  intros E. pose proof (blen_print_hdr_pos lo hi nc) as H. rewrite E in H.
+  unfold blen in H. cbn [length] in H. lia.
+Qed.
+
+(* ------------------------------------------------------------------ *)
+(** * (3) Binary shape: the walk establishes an exact tiling *)
+
+(* the payload size a header line announces is non-negative *)
+Definition payload_nonneg (h : bytes) : Prop :=
+  forall hd shp, parse_hdr h = Some hd -> hdr_shape hd = Some shp ->
+                 0 <= zprod shp * h_nc hd.
+
+Definition tile_ok (t : bytes * bytes) : Prop :=
+  exists n, hdr_payload (fst t) = Some n /\ blen (snd t) = n.
+
+(* [h] is the header line just read, sitting in the file right before the
+   current position: the file is [pre ++ h ++ post] and the position is
+   [blen pre + blen h]. *)
+Theorem walk_shape_tiled : forall nf nexts pre h post,
+  walk_shape nf (pre ++ h ++ post) (blen pre + blen h) h nexts = true ->
+  payload_nonneg h ->
+  Forall (fun b => payload_nonneg (print_hdr (br_lo b) (br_hi b) nf)) nexts ->
+  exists tiles : list (bytes * bytes),
+    length tiles = S (length nexts) /\
+    h ++ post = concat (map tile_bytes tiles) /\
+    Forall tile_ok tiles /\
+    fst (hd ([], []) tiles) = h /\
+    Forall2 (fun t b => fst t = print_hdr (br_lo b) (br_hi b) nf) (tl tiles) nexts.
+Proof.
+  intros nf nexts. induction nexts as [|b more IH]; intros pre h post Hw Hh Hn.
+  - cbn [walk_shape] in Hw.
+    destruct (parse_hdr h) as [hd|] eqn:Ep; [|discriminate].
+    destruct (hdr_shape hd) as [shp|] eqn:Es; [|discriminate].
+    cbv zeta in Hw.
+    destruct (blen pre + blen h + zprod shp * h_nc hd * 8 <? 0) eqn:Eneg; [discriminate|].
+    apply Z.eqb_eq in Hw. rewrite !blen_app in Hw.
+    exists [(h, post)]. split; [reflexivity|]. split.
+    { cbn [map concat]. unfold tile_bytes. cbn [fst snd]. rewrite app_nil_r. reflexivity. }
+    split.
+    { constructor; [|constructor]. exists (8 * zprod shp * h_nc hd). cbn [fst snd].
+      split; [|lia]. unfold hdr_payload. rewrite Ep. cbn [obind]. rewrite Es. reflexivity. }
+    split; [reflexivity|]. cbn [tl]. constructor.
+  - cbn [walk_shape] in Hw.
+    destruct (parse_hdr h) as [hd|] eqn:Ep; [|discriminate].
+    destruct (hdr_shape hd) as [shp|] eqn:Es; [|discriminate].
+    cbv zeta in Hw.
+    pose proof (Hh hd shp Ep Es) as Hn0.
+    remember (zprod shp * h_nc hd * 8) as n eqn:En.
+    assert (Hn0' : 0 <= n) by lia.
+    destruct (blen pre + blen h + n <? 0) eqn:Eneg; [discriminate|].
+    remember (pre ++ h ++ post) as f eqn:Ef.
+    remember (print_hdr (br_lo b) (br_hi b) nf) as line eqn:Eline.
+    destruct (bytes_eqb (readline f (blen pre + blen h + n)) line) eqn:Eb; [|discriminate].
+    apply bytes_eqb_eq in Eb. rewrite Eb in Hw.
+    assert (Hr : rest f (blen pre + blen h + n) = zskipn n post).
+    { unfold rest. rewrite Ef, app_assoc.
+      rewrite zskipn_app_ge by (rewrite blen_app; lia).
+      f_equal. rewrite blen_app. lia. }
+    unfold readline in Eb. rewrite Hr in Eb.
+    assert (Hne : line <> []) by (rewrite Eline; apply print_hdr_nonnil).
+    assert (Hle : n <= blen post).
+    { destruct (Z_le_gt_dec n (blen post)) as [Hle|Hgt]; [exact Hle|].
+      exfalso. apply Hne. rewrite <- Eb.
+      unfold zskipn. rewrite skipn_all2; [reflexivity|]. unfold blen in Hgt. lia. }
+    destruct (take_line_prefix (zskipn n post)) as [post' Hp']. rewrite Eb in Hp'.
+    assert (Hpost : post = zfirstn n post ++ line ++ post').
+    { rewrite <- Hp'. unfold zfirstn, zskipn. symmetry. apply firstn_skipn. }
+    assert (Hpl : blen (zfirstn n post) = n) by (apply blen_zfirstn; lia).
+    remember (zfirstn n post) as pl eqn:Epl.
+    assert (Hf : f = (pre ++ h ++ pl) ++ line ++ post').
+    { rewrite Ef, Hpost, <- !app_assoc. reflexivity. }
+    assert (Hpos : blen pre + blen h + n + blen line = blen (pre ++ h ++ pl) + blen line).
+    { rewrite !blen_app. lia. }
+    rewrite Hpos, Hf in Hw.
+    inversion Hn as [|b' more' Hb Hmore]; subst b' more'.
+    rewrite <- Eline in Hb.
+    destruct (IH _ _ _ Hw Hb Hmore) as (tiles & Hlen & Hcat & Hok & Hfst & HF2).
+    exists ((h, pl) :: tiles).
+    split; [cbn [length]; rewrite Hlen; reflexivity|]. split.
+    { cbn [map concat]. unfold tile_bytes at 1. cbn [fst snd].
+      rewrite <- Hcat, <- app_assoc, <- Hpost. reflexivity. }
+    split.
+    { constructor; [|exact Hok]. exists (8 * zprod shp * h_nc hd). cbn [fst snd].
+      split; [|lia]. unfold hdr_payload. rewrite Ep. cbn [obind]. rewrite Es. reflexivity. }
+    split; [reflexivity|]. cbn [tl].
+    destruct tiles as [|t0 tiles']; [discriminate Hlen|].
+    cbn [List.hd tl] in *. constructor; [exact (eq_trans Hfst Eline)|exact HF2].
+Qed.
+
+(* the same statement in positional form: [h] is the [blen h] bytes of [f]
+   that end at [pos] *)
+Corollary walk_shape_tiled_pos : forall nf f nexts pos h,
+  blen h <= pos ->
+  zfirstn (blen h) (zskipn (pos - blen h) f) = h ->
+  walk_shape nf f pos h nexts = true ->
+  payload_nonneg h ->
+  Forall (fun b => payload_nonneg (print_hdr (br_lo b) (br_hi b) nf)) nexts ->
+  exists tiles : list (bytes * bytes),
+    length tiles = S (length nexts) /\
+    zskipn (pos - blen h) f = concat (map tile_bytes tiles) /\
+    Forall tile_ok tiles /\
+    hd ([], []) tiles = (h, snd (hd ([], []) tiles)) /\
+    Forall2 (fun t b => fst t = print_hdr (br_lo b) (br_hi b) nf) (tl tiles) nexts.
+Proof.
+  intros nf f nexts pos h Hle Hh Hw Hp Hn.
+  destruct h as [|c0 h0] eqn:Eh.
+  { destruct nexts; cbn in Hw; discriminate. }
+  rewrite <- Eh in *. clear Eh c0 h0.
+  set (q := pos - blen h) in *.
+  assert (Hsplit : zskipn q f = h ++ zskipn (blen h) (zskipn q f)).
+  { rewrite <- Hh at 1. unfold zfirstn, zskipn. symmetry. apply firstn_skipn. }
+  assert (Hf : f = zfirstn q f ++ h ++ zskipn (blen h) (zskipn q f)).
+  { rewrite <- Hsplit. unfold zfirstn, zskipn. symmetry. apply firstn_skipn. }
+  assert (Hq : q <= blen f).
+  { destruct (Z_le_gt_dec q (blen f)) as [H|H]; [exact H|]. exfalso.
+    assert (E : zskipn q f = []) by (unfold zskipn; apply skipn_all2; unfold blen in H; lia).
+    rewrite E in Hh. unfold zfirstn in Hh. rewrite firstn_nil in Hh. subst h.
+    destruct nexts; cbn in Hw; discriminate. }
+  assert (Hpre : blen (zfirstn q f) = q) by (apply blen_zfirstn; lia).
+  rewrite Hf in Hw.
+  replace pos with (blen (zfirstn q f) + blen h) in Hw by lia.
+  destruct (walk_shape_tiled _ _ _ _ _ Hw Hp Hn) as (tiles & Hlen & Hcat & Hok & Hfst & HF2).
+  exists tiles. split; [exact Hlen|]. split; [rewrite Hsplit; exact Hcat|].
+  split; [exact Hok|]. split; [|exact HF2].
+  destruct tiles as [|[a p] tiles']; [discriminate Hlen|]. cbn [List.hd fst snd] in *. subst a. reflexivity.
+Qed.
+
+(* ---- non-negativity of the announced payload for valid boxes ---- *)
+
+Lemma zprod_box_shape_ge1 : forall lo hi,
+  Forall2 (fun l h => l <= h) lo hi ->
+  1 <= zprod (zip_with (fun h l => h - l + 1) hi lo).
+Proof.
+  intros lo hi H. induction H as [|l h lo hi Hlh _ IH]; cbn [zip_with zprod fold_right].
+  - lia.
+  - fold (zprod (zip_with (fun h0 l0 => h0 - l0 + 1) hi lo)).
+    set (p := zprod _) in *. change (1 * 1 <= (h - l + 1) * p).
+    apply Z.mul_le_mono_nonneg; lia.
+Qed.
+
+Lemma box_valid_payload : forall nf b, 0 <= nf -> box_valid b ->
+  payload_nonneg (print_hdr (br_lo b) (br_hi b) nf).
+Proof.
+  intros nf b Hnf (Hlen & Hne & HF) hd shp Hp Hs.
+  assert (Hhi : br_hi b <> []).
+  { intros E. rewrite E in Hlen. destruct (br_lo b); [congruence|discriminate]. }
+  rewrite (parse_print_hdr _ _ nf Hne Hhi) in Hp. injection Hp as <-.
+  unfold hdr_shape, np_binop in Hs. cbn [h_hi h_lo h_nc] in *.
+  rewrite <- Hlen, Nat.eqb_refl in Hs. injection Hs as <-.
+  pose proof (zprod_box_shape_ge1 _ _ HF) as H1.
+  apply Z.mul_nonneg_nonneg; lia.
+Qed.
+
+(* ---- the per-file check ---- *)
+
+(* [file_tiled], together with the facts about the first tile that the
+   definition leaves out *)
+Theorem shape_ok_file_tiles : forall nf ld c name f,
+  lookup name (ld_files ld) = Some f -> file_boxes c name <> [] ->
+  shape_ok_file nf ld c name = true ->
+  0 <= nf -> Forall box_valid (tl (file_boxes c name)) ->
+  payload_nonneg (readline f 0) ->
+  exists tiles : list (bytes * bytes),
+    length tiles = length (file_boxes c name) /\
+    f = concat (map tile_bytes tiles) /\
+    Forall tile_ok tiles /\
+    Forall2 (fun t b => fst t = print_hdr (br_lo b) (br_hi b) nf)
+            (tl tiles) (tl (file_boxes c name)) /\
+    fst (hd ([], []) tiles) = readline f 0.
+Proof.
+  intros nf ld c name f Hl Hne Hs Hnf Hv Hh.
+  unfold shape_ok_file in Hs. rewrite Hl in Hs.
+  change (sort_by_off (filter (fun b => bytes_eqb (br_file b) name) (cell_boxes c)))
+    with (file_boxes c name) in Hs.
+  destruct (file_boxes c name) as [|b0 more] eqn:Eb; [congruence|].
+  cbv zeta in Hs. cbn [tl length] in *.
+  destruct (take_line_prefix f) as [post Hp].
+  unfold readline, rest in *. rewrite zskipn_0 in *.
+  set (h := take_line f) in *.
+  assert (Hw : walk_shape nf ([] ++ h ++ post) (blen (@nil ascii) + blen h) h more = true).
+  { cbn [app]. rewrite <- Hp. exact Hs. }
+  destruct (walk_shape_tiled nf more [] h post Hw Hh) as (tiles & Hlen & Hcat & Hok & Hfst & HF2).
+  { revert Hv. apply Forall_impl. intros b. apply box_valid_payload. exact Hnf. }
+  exists tiles. split; [exact Hlen|]. split; [rewrite Hp; exact Hcat|].
+  split; [exact Hok|]. split; [exact HF2|exact Hfst].
+Qed.
+
+Theorem shape_ok_file_tiled_strong : forall nf ld c name f,
+  lookup name (ld_files ld) = Some f -> file_boxes c name <> [] ->
+  shape_ok_file nf ld c name = true ->
+  0 <= nf -> Forall box_valid (tl (file_boxes c name)) ->
+  payload_nonneg (readline f 0) ->
+  file_tiled nf f (file_boxes c name).
+Proof.
+  intros nf ld c name f Hl Hne Hs Hnf Hv Hh.
+  destruct (shape_ok_file_tiles nf ld c name f Hl Hne Hs Hnf Hv Hh)
+    as (tiles & Hlen & Hcat & Hok & HF2 & _).
+  exists tiles. split; [exact Hlen|]. split; [exact Hcat|]. split; [exact Hok|exact HF2].
+Qed.
+
+Theorem shape_ok_file_tiled : forall nf ld c name f,
+  lookup name (ld_files ld) = Some f -> file_boxes c name <> [] ->
+  shape_ok_file nf ld c name = true ->
+  0 <= nf -> Forall box_valid (file_boxes c name) ->
+  (forall hd shp, parse_hdr (readline f 0) = Some hd -> hdr_shape hd = Some shp ->
+                  0 <= zprod shp * h_nc hd) ->
+  file_tiled nf f (file_boxes c name).
+Proof.
+  intros nf ld c name f Hl Hne Hs Hnf Hv Hh.
+  apply (shape_ok_file_tiled_strong nf ld c name f Hl Hne Hs Hnf); [|exact Hh].
+  destruct (file_boxes c name) as [|b0 more]; [constructor|].
+  inversion Hv; assumption.
+Qed.
+
+(* with a single box the first header needs no side condition: the final
+   position test forces its payload to be what is left of the file *)
+Theorem shape_ok_file_tiled_single : forall nf ld c name f b,
+  lookup name (ld_files ld) = Some f -> file_boxes c name = [b] ->
+  shape_ok_file nf ld c name = true ->
+  file_tiled nf f [b].
+Proof.
+  intros nf ld c name f b Hl Eb Hs.
+  unfold shape_ok_file in Hs. rewrite Hl in Hs.
+  change (sort_by_off (filter (fun b => bytes_eqb (br_file b) name) (cell_boxes c)))
+    with (file_boxes c name) in Hs.
+  rewrite Eb in Hs. cbv zeta in Hs.
+  destruct (take_line_prefix f) as [post Hp].
+  unfold readline, rest in *. rewrite zskipn_0 in *.
+  set (h := take_line f) in *. cbn [walk_shape] in Hs.
+  destruct (parse_hdr h) as [hd|] eqn:Ep; [|discriminate].
+  destruct (hdr_shape hd) as [shp|] eqn:Es; [|discriminate].
+  cbv zeta in Hs.
+  destruct (blen h + zprod shp * h_nc hd * 8 <? 0); [discriminate|].
+  apply Z.eqb_eq in Hs. rewrite Hp, blen_app in Hs.
+  exists [(h, post)]. split; [reflexivity|]. split.
+  { cbn [map concat]. unfold tile_bytes. cbn [fst snd]. rewrite app_nil_r. exact Hp. }
+  split; [|constructor].
+  constructor; [|constructor]. exists (8 * zprod shp * h_nc hd). cbn [fst snd].
+  split; [|lia]. unfold hdr_payload. rewrite Ep. cbn [obind]. rewrite Es. reflexivity.
+Qed.
+
+(* ---- truncation / extension ---- *)
+
+Lemma walk_shape_extend : forall nf extra nexts f pos h, extra <> [] ->
+  walk_shape nf f pos h nexts = true ->
+  walk_shape nf (f ++ extra) pos h nexts = false.
+Proof.
+  intros nf extra nexts. induction nexts as [|b more IH]; intros f pos h Hx Hw.
+  - cbn [walk_shape] in *.
+    destruct (parse_hdr h) as [hd|]; [|discriminate].
+    destruct (hdr_shape hd) as [shp|]; [|discriminate].
+    cbv zeta in *.
+    destruct (pos + zprod shp * h_nc hd * 8 <? 0); [discriminate|].
+    apply Z.eqb_eq in Hw. apply Z.eqb_neq. rewrite blen_app.
+    assert (0 < blen extra).
+    { destruct extra; [congruence|]. rewrite blen_cons. pose proof (blen_nonneg extra). lia. }
+    lia.
+  - cbn [walk_shape] in *.
+    destruct (parse_hdr h) as [hd|]; [|discriminate].
+    destruct (hdr_shape hd) as [shp|]; [|discriminate].
+    cbv zeta in *.
+    set (p := pos + zprod shp * h_nc hd * 8) in *.
+    destruct (p <? 0) eqn:Eneg; [discriminate|].
+    set (line := print_hdr (br_lo b) (br_hi b) nf) in *.
+    destruct (bytes_eqb (readline f p) line) eqn:Eb; [|discriminate].
+    apply bytes_eqb_eq in Eb.
+    assert (Hin : In nl (readline f p)) by (rewrite Eb; apply print_hdr_In_nl).
+    assert (E : readline (f ++ extra) p = readline f p).
+    { unfold readline, rest in *.
+      destruct (Z_le_gt_dec p (blen f)) as [Hle|Hgt].
+      - rewrite zskipn_app_le by exact Hle. apply take_line_app_nl. exact Hin.
+      - exfalso. unfold zskipn in Hin. rewrite skipn_all2 in Hin; [destruct Hin|].
+        unfold blen in Hgt. lia. }
+    rewrite E, Eb. rewrite Eb in Hw.
+    assert (Hrefl : bytes_eqb line line = true) by (apply bytes_eqb_eq; reflexivity).
+    rewrite Hrefl. apply IH; assumption.
+Qed.
+
+(* an accepted file, extended by any non-empty bytes, is rejected - provided
+   the first line of the file is terminated by a newline inside the file *)
+Theorem shape_ok_file_length : forall nf ld c name f extra,
+  lookup name (ld_files ld) = Some f -> extra <> [] -> file_boxes c name <> [] ->
+  In nl f ->
+  shape_ok_file nf ld c name = true ->
+  forall ld', lookup name (ld_files ld') = Some (f ++ extra) ->
+              shape_ok_file nf ld' c name = false.
+Proof.
+  intros nf ld c name f extra Hl Hx Hne Hnl Hs ld' Hl'.
+  unfold shape_ok_file in *. rewrite Hl in Hs. rewrite Hl'.
+  change (sort_by_off (filter (fun b => bytes_eqb (br_file b) name) (cell_boxes c)))
+    with (file_boxes c name) in *.
+  destruct (file_boxes c name) as [|b0 more]; [congruence|].
+  cbv zeta in *.
+  assert (E : readline (f ++ extra) 0 = readline f 0).
+  { unfold readline, rest. rewrite !zskipn_0. apply take_line_app_nl.
+    apply take_line_In_nl. exact Hnl. }
+  rewrite E. apply walk_shape_extend; assumption.
+Qed.
+
+(* with two boxes or more the newline is there anyway *)
+Lemma skipn_incl {A} : forall n (l : list A) x, In x (skipn n l) -> In x l.
+Proof.
+  induction n as [|n IH]; intros l x H; [exact H|].
+  destruct l as [|a l]; [exact H|]. right. apply IH. exact H.
+Qed.
+
+Theorem shape_ok_file_newline : forall nf ld c name f b0 b1 more,
+  lookup name (ld_files ld) = Some f -> file_boxes c name = b0 :: b1 :: more ->
+  shape_ok_file nf ld c name = true -> In nl f.
+Proof.
+  intros nf ld c name f b0 b1 more Hl Eb Hs.
+  unfold shape_ok_file in Hs. rewrite Hl in Hs.
+  change (sort_by_off (filter (fun b => bytes_eqb (br_file b) name) (cell_boxes c)))
+    with (file_boxes c name) in Hs.
+  rewrite Eb in Hs. cbv zeta in Hs. cbn [walk_shape] in Hs.
+  destruct (parse_hdr (readline f 0)) as [hd|]; [|discriminate].
+  destruct (hdr_shape hd) as [shp|]; [|discriminate].
+  cbv zeta in Hs.
+  set (p := blen (readline f 0) + zprod shp * h_nc hd * 8) in *.
+  destruct (p <? 0); [discriminate|].
+  destruct (bytes_eqb (readline f p) (print_hdr (br_lo b1) (br_hi b1) nf)) eqn:E; [|discriminate].
+  apply bytes_eqb_eq in E.
+  pose proof (print_hdr_In_nl (br_lo b1) (br_hi b1) nf) as Hin. rewrite <- E in Hin.
+  unfold readline, rest, zskipn in Hin.
+  apply take_line_incl in Hin. apply skipn_incl in Hin. exact Hin.
+Qed.
+
+Corollary shape_ok_file_length_multi : forall nf ld c name f extra b0 b1 more,
+  lookup name (ld_files ld) = Some f -> extra <> [] ->
+  file_boxes c name = b0 :: b1 :: more ->
+  shape_ok_file nf ld c name = true ->
+  forall ld', lookup name (ld_files ld') = Some (f ++ extra) ->
+              shape_ok_file nf ld' c name = false.
+Proof.
+  intros nf ld c name f extra b0 b1 more Hl Hx Eb Hs ld' Hl'.
+  apply (shape_ok_file_length nf ld c name f extra Hl Hx); try assumption.
+  - rewrite Eb. discriminate.
+  - apply (shape_ok_file_newline nf ld c name f b0 b1 more); assumption.
+Qed.
+
+(* ---- from the level-wide check to one file / one box ---- *)
+
+Theorem check_shape_sound : forall nf ld c name,
+  check_shape nf ld c = true -> In name (c_files c) ->
+  shape_ok_file nf ld c name = true /\ exists f, lookup name (ld_files ld) = Some f.
+Proof.
+  intros nf ld c name H Hin. unfold check_shape in H. rewrite forallb_forall in H.
+  assert (Hs : shape_ok_file nf ld c name = true) by (apply H; apply np_unique_In; exact Hin).
+  split; [exact Hs|]. unfold shape_ok_file in Hs.
+  destruct (lookup name (ld_files ld)) as [f|]; [|discriminate]. exists f. reflexivity.
+Qed.
+
+Lemma zip3_In_file : forall fs os ix b, In b (zip3 fs os ix) -> In (br_file b) fs.
+Proof.
+  induction fs as [|f fs IH]; intros os ix b H; cbn [zip3] in H; [destruct H|].
+  destruct os as [|o os]; [destruct H|]. destruct ix as [|[lo hi] ix]; [destruct H|].
+  destruct H as [H|H]; [subst b; left; reflexivity|right; exact (IH _ _ _ H)].
+Qed.
+
+Lemma insert_by_off_In_rev (b : boxrec) : forall l x,
+  x = b \/ In x l -> In x (insert_by_off b l).
+Proof.
+  induction l as [|y l IH]; intros x H; cbn [insert_by_off].
+  - destruct H as [H|[]]. left. symmetry. exact H.
+  - destruct (br_off b <? br_off y).
+    + destruct H as [H|H]; [left; symmetry; exact H|right; exact H].
+    + destruct H as [H|[H|H]]; [right; apply IH; left; exact H|left; exact H|right; apply IH; right; exact H].
+Qed.
+
+Lemma sort_by_off_In_rev : forall l x, In x l -> In x (sort_by_off l).
+Proof.
+  induction l as [|b l IH]; intros x H; [exact H|].
+  unfold sort_by_off. cbn [fold_right]. fold (sort_by_off l).
+  apply insert_by_off_In_rev. destruct H as [H|H]; [left; symmetry; exact H|right; apply IH; exact H].
+Qed.
+
+(* every box of a level whose shape check passes lies in a file that passes
+   the per-file check, among the boxes the walk goes through *)
+Theorem check_shape_box : forall nf ld c b,
+  check_shape nf ld c = true -> In b (cell_boxes c) ->
+  In b (file_boxes c (br_file b)) /\
+  shape_ok_file nf ld c (br_file b) = true /\
+  exists f, lookup (br_file b) (ld_files ld) = Some f.
+Proof.
+  intros nf ld c b H Hin. split.
+  - unfold file_boxes. apply sort_by_off_In_rev. apply filter_In. split; [exact Hin|].
+    apply bytes_eqb_eq. reflexivity.
+  - apply check_shape_sound; [exact H|]. unfold cell_boxes in Hin.
+    apply zip3_In_file in Hin. exact Hin.
+Qed.
+
+(* ------------------------------------------------------------------ *)
+(** * (4) Reading what was accepted *)
+
+Definition all_fields : farg := FSlice None None None.
+
+Lemma firstn_add_skipn {A} : forall (n m : nat) (l : list A),
+  firstn n l ++ firstn m (skipn n l) = firstn (n + m) l.
+Proof.
+  induction n as [|n IH]; intros m l; [reflexivity|].
+  destruct l as [|a l]; cbn [firstn skipn Nat.add app].
+  - rewrite firstn_nil. reflexivity.
+  - f_equal. apply IH.
+Qed.
+
+(* two adjacent blocks make one block *)
+Lemma sub_app_adj (a l1 l2 : Z) (x : bytes) :
+  0 <= a -> 0 <= l1 -> 0 <= l2 ->
+  sub a l1 x ++ sub (a + l1) l2 x = sub a (l1 + l2) x.
+Proof.
+  intros Ha H1 H2. unfold sub.
+  replace (a + l1) with (l1 + a) by lia.
+  rewrite <- (zskipn_zskipn x l1 a H1 Ha).
+  unfold zfirstn, zskipn. rewrite firstn_add_skipn. f_equal. lia.
+Qed.
+
+Lemma concat_blocks (chunk : Z) (data : bytes) : 0 <= chunk ->
+  forall (m k : nat),
+  concat (map (fun i => sub (chunk * i) chunk data) (map Z.of_nat (seq k m)))
+  = sub (chunk * Z.of_nat k) (chunk * Z.of_nat m) data.
+Proof.
+  intros Hc. induction m as [|m IH]; intros k.
+  - cbn [seq map concat]. unfold sub, zfirstn.
+    replace (Z.to_nat (chunk * Z.of_nat 0)) with 0%nat by lia. reflexivity.
+  - cbn [seq map concat]. rewrite IH.
+    replace (chunk * Z.of_nat (S k)) with (chunk * Z.of_nat k + chunk) by lia.
+    rewrite sub_app_adj by nia. f_equal. lia.
+Qed.
+
+Lemma range_list_all (n : Z) : 0 <= n ->
+  range_list 0 n 1 = map Z.of_nat (seq 0 (Z.to_nat n)).
+Proof.
+  intros Hn. unfold range_list.
+  assert (E : range_len 0 n 1 = n).
+  { unfold range_len. change (0 <? 1) with true. cbv iota.
+    destruct (0 <? n) eqn:E0; [|lia].
+    rewrite Z.div_1_r. lia. }
+  rewrite E. apply map_ext. intros i. lia.
+Qed.
+
+(* all the components of a block-structured payload: the payload itself *)
+Theorem take_comps_all : forall chunk n data,
+  0 <= chunk -> 0 <= n -> blen data = chunk * n ->
+  take_comps chunk (range_list 0 n 1) data = data.
+Proof.
+  intros chunk n data Hc Hn Hd. unfold take_comps.
+  rewrite range_list_all by exact Hn.
+  rewrite concat_blocks by exact Hc.
+  unfold sub. replace (chunk * Z.of_nat 0) with 0 by lia. rewrite zskipn_0.
+  apply zfirstn_all. lia.
+Qed.
+
+Lemma blen_range_list_all (n : Z) : 0 <= n -> blen (range_list 0 n 1) = n.
+Proof.
+  intros Hn. rewrite range_list_all by exact Hn.
+  unfold blen. rewrite map_length, seq_length. lia.
+Qed.
+
+Lemma slice_indices_all (n : Z) : 0 <= n ->
+  slice_indices None None None n = Some (0, n, 1).
+Proof.
+  intros Hn. unfold slice_indices.
+  destruct (0 <=? n) eqn:E; [|lia]. reflexivity.
+Qed.
+
+Lemma zprod_nonneg (l : list Z) : Forall (fun d => 0 <= d) l -> 0 <= zprod l.
+Proof.
+  unfold zprod. induction 1 as [|a l Ha _ IH]; cbn [fold_right]; [lia|].
+  apply Z.mul_nonneg_nonneg; assumption.
+Qed.
+
+Lemma read_block_all (f : bytes) (pos : Z) (shp : list Z) (n : Z) :
+  0 <= pos -> 0 <= zprod shp * n -> pos + 8 * (zprod shp * n) <= blen f ->
+  read_block f pos shp 0 n
+  = Some (sub pos (8 * (zprod shp * n)) f, pos + 8 * (zprod shp * n)).
+Proof.
+  intros Hp Hc Hle. unfold read_block. cbv zeta.
+  replace (pos + zprod shp * 0 * 8) with pos by lia.
+  destruct (0 <=? pos) eqn:E; [|lia].
+  assert (Hd : fromfile f pos (zprod shp * n) = sub pos (8 * (zprod shp * n)) f).
+  { unfold fromfile, rest, sub. cbv zeta.
+    rewrite blen_zskipn by lia.
+    set (cnt := zprod shp * n) in *.
+    destruct (cnt <? 0) eqn:E1; [lia|].
+    replace (Z.min cnt ((blen f - pos) / 8)) with cnt by lia. reflexivity. }
+  rewrite Hd. rewrite blen_sub by lia. reflexivity.
+Qed.
+
+Theorem accepted_box_readable : forall nf f (b : boxrec) h shp,
+  0 <= nf -> 0 <= br_off b ->
+  parse_hdr (readline f (br_off b)) = Some h ->
+  h_lo h = br_lo b -> h_hi h = br_hi b -> h_nc h = nf ->
+  hdr_shape h = Some shp -> Forall (fun d => 0 <= d) shp ->
+  br_off b + blen (readline f (br_off b)) + 8 * zprod shp * nf <= blen f ->
+  read_box f (br_off b) all_fields =
+    Some {| a_shape := shp ++ [nf];
+            a_data := sub (br_off b + blen (readline f (br_off b))) (8 * zprod shp * nf) f |}.
+Proof.
+  intros nf f b h shp Hnf Hoff Hp _ _ Hnc Hs Hshp Hle.
+  pose proof (zprod_nonneg shp Hshp) as Hz.
+  pose proof (blen_nonneg (readline f (br_off b))) as Hl0.
+  assert (Hc : 0 <= zprod shp * nf) by (apply Z.mul_nonneg_nonneg; assumption).
+  unfold read_box. destruct (0 <=? br_off b) eqn:E; [|lia].
+  unfold read_header. cbv zeta. rewrite Hp. cbn [obind]. rewrite Hs. cbn [obind].
+  set (pos := br_off b + blen (readline f (br_off b))) in *.
+  unfold all_fields, read_selected. cbv zeta.
+  rewrite Hnc, (slice_indices_all nf Hnf). cbn [obind].
+  change (0 <? 1) with true. cbv iota.
+  replace (Z.max (nf - 0) 0) with nf by lia.
+  rewrite (read_block_all f pos shp nf) by lia. cbn [obind].
+  set (data := sub pos (8 * (zprod shp * nf)) f).
+  assert (Hd : blen data = 8 * (zprod shp * nf)) by (apply blen_sub; lia).
+  rewrite reshape_ok_true.
+  - rewrite blen_range_list_all by exact Hnf.
+    rewrite take_comps_all; [| lia | exact Hnf | lia].
+    unfold data. replace (8 * zprod shp * nf) with (8 * (zprod shp * nf)) by lia. reflexivity.
+  - rewrite forallb_app. cbn [forallb]. apply andb_true_iff. split; [|lia].
+    apply forallb_forall. rewrite Forall_forall in Hshp. intros d Hd'.
+    specialize (Hshp d Hd'). lia.
+  - rewrite zprod_app1. exact Hd.
+Qed.
+
+(* ---- the payload of a tile is available at the tile's offset ---- *)
+
+(* start position of the k-th tile: the total size of the preceding tiles *)
+Definition tile_off (tiles : list (bytes * bytes)) (k : nat) : Z :=
+  blen (concat (map tile_bytes (firstn k tiles))).
+
+Lemma tiles_split : forall (tiles : list (bytes * bytes)) k, (k < length tiles)%nat ->
+  concat (map tile_bytes tiles) =
+  concat (map tile_bytes (firstn k tiles)) ++
+  fst (nth k tiles ([], [])) ++ snd (nth k tiles ([], [])) ++
+  concat (map tile_bytes (skipn (S k) tiles)).
+Proof.
+  induction tiles as [|t tiles IH]; intros k Hk; cbn [length] in Hk; [lia|].
+  destruct k as [|k].
+  - cbn [firstn map concat nth skipn app]. unfold tile_bytes at 1.
+    rewrite <- app_assoc. reflexivity.
+  - cbn [firstn map concat nth]. rewrite (IH k) by lia.
+    rewrite <- app_assoc. reflexivity.
+Qed.
+
+Lemma tile_payload_at : forall tiles k f,
+  f = concat (map tile_bytes tiles) -> (k < length tiles)%nat ->
+  let t := nth k tiles ([], []) in
+  rest f (tile_off tiles k) =
+    fst t ++ snd t ++ concat (map tile_bytes (skipn (S k) tiles)) /\
+  tile_off tiles k + blen (fst t) + blen (snd t) <= blen f /\
+  sub (tile_off tiles k + blen (fst t)) (blen (snd t)) f = snd t.
+Proof.
+  intros tiles k f Hf Hk t. subst f. rewrite (tiles_split tiles k Hk). fold t.
+  unfold tile_off. set (pre := concat (map tile_bytes (firstn k tiles))).
+  set (post := concat (map tile_bytes (skipn (S k) tiles))).
+  split; [|split].
+  - unfold rest. apply zskipn_app_exact.
+  - rewrite !blen_app. pose proof (blen_nonneg post). lia.
+  - unfold sub. rewrite app_assoc.
+    replace (blen pre + blen (fst t)) with (blen (pre ++ fst t)) by apply blen_app.
+    rewrite zskipn_app_exact. apply zfirstn_app_exact.
+Qed.
+
+(* a header line that [readline] returns whole whatever follows it: it ends
+   with its only newline (every [print_hdr] line does) *)
+Definition line_complete (h : bytes) : Prop := forall r, take_line (h ++ r) = h.
+
+Lemma print_hdr_complete lo hi nc : line_complete (print_hdr lo hi nc).
+Proof. intros r. apply take_line_print_hdr. Qed.
+
+Lemma take_line_idem : forall s, take_line (take_line s) = take_line s.
+Proof.
+  induction s as [|c s IH]; [reflexivity|]. cbn [take_line].
+  destruct (Ascii.eqb c nl) eqn:E; cbn [take_line]; rewrite E; [reflexivity|].
+  f_equal. exact IH.
+Qed.
+
+(* a line read from a file that contains its newline is complete *)
+Lemma take_line_complete : forall s, In nl (take_line s) -> line_complete (take_line s).
+Proof.
+  intros s H r. rewrite take_line_app_nl by (rewrite take_line_idem; exact H).
+  apply take_line_idem.
+Qed.
+
+Theorem tiled_payload_available : forall tiles k f n,
+  f = concat (map tile_bytes tiles) -> (k < length tiles)%nat ->
+  let t := nth k tiles ([], []) in
+  let off := tile_off tiles k in
+  line_complete (fst t) -> blen (snd t) = n ->
+  readline f off = fst t /\
+  off + blen (readline f off) + n <= blen f /\
+  sub (off + blen (readline f off)) n f = snd t.
+Proof.
+  intros tiles k f n Hf Hk t off Hc Hn.
+  destruct (tile_payload_at tiles k f Hf Hk) as (Hr & Hle & Hs). fold t off in Hr, Hle, Hs.
+  assert (E : readline f off = fst t) by (unfold readline; rewrite Hr; apply Hc).
+  rewrite E, <- Hn. auto.
+Qed.
+
+(* ---- every tile of an accepted file starts with the line [readline]
+        returns at its offset ---- *)
+
+Lemma Forall2_nth_l {A B} (R : A -> B -> Prop) (d : A) : forall l1 l2 k,
+  Forall2 R l1 l2 -> (k < length l1)%nat ->
+  exists b, nth_error l2 k = Some b /\ R (nth k l1 d) b.
+Proof.
+  intros l1 l2 k H. revert k. induction H as [|a b l1 l2 Hab _ IH]; intros k Hk;
+    cbn [length] in Hk; [lia|].
+  destruct k as [|k]; cbn [nth nth_error].
+  - exists b. auto.
+  - apply IH. lia.
+Qed.
+
+Theorem tiles_readline : forall nf tiles nexts f,
+  f = concat (map tile_bytes tiles) ->
+  fst (hd ([], []) tiles) = readline f 0 ->
+  Forall2 (fun t b => fst t = print_hdr (br_lo b) (br_hi b) nf) (tl tiles) nexts ->
+  forall k, (k < length tiles)%nat ->
+            readline f (tile_off tiles k) = fst (nth k tiles ([], [])).
+Proof.
+  intros nf tiles nexts f Hf H0 HF k Hk.
+  destruct tiles as [|t0 tiles]; [cbn [length] in Hk; lia|].
+  destruct k as [|k].
+  - cbn [nth List.hd] in *. unfold tile_off. cbn [firstn map concat].
+    rewrite blen_nil. symmetry. exact H0.
+  - cbn [tl length] in *.
+    destruct (Forall2_nth_l _ ([], []) _ _ k HF) as (b & _ & Hb); [unfold bytes in *; lia|].
+    assert (Hk2 : (S k < length (t0 :: tiles))%nat) by (cbn [length]; lia).
+    assert (Hc : line_complete (fst (nth (S k) (t0 :: tiles) ([], [])))).
+    { cbn [nth]. unfold bytes in *. rewrite Hb. apply print_hdr_complete. }
+    exact (proj1 (tiled_payload_available (t0 :: tiles) (S k) f _ Hf Hk2 Hc eq_refl)).
+Qed.
+
+(* ---- reading the k-th tile ---- *)
+
+Lemma some_inj {A} (a b : A) : Some a = Some b -> a = b.
+Proof. intros H. injection H as H. exact H. Qed.
+
+Theorem tiled_box_readable : forall nf f tiles k (b : boxrec) h shp,
+  f = concat (map tile_bytes tiles) -> (k < length tiles)%nat ->
+  let t := nth k tiles ([], []) in
+  tile_ok t ->
+  readline f (tile_off tiles k) = fst t ->
+  br_off b = tile_off tiles k ->
+  0 <= nf ->
+  parse_hdr (fst t) = Some h -> h_lo h = br_lo b -> h_hi h = br_hi b -> h_nc h = nf ->
+  hdr_shape h = Some shp -> Forall (fun d => 0 <= d) shp ->
+  read_box f (br_off b) all_fields = Some {| a_shape := shp ++ [nf]; a_data := snd t |}.
+Proof.
+  intros nf f tiles k b h shp Hf Hk t (n & Hpay & Hn) Hline Hoff Hnf Hp Hlo Hhi Hnc Hs Hshp.
+  destruct (tile_payload_at tiles k f Hf Hk) as (_ & Hle & Hsub). fold t in Hle, Hsub.
+  assert (Hpay' : hdr_payload (fst t) = Some (8 * zprod shp * nf)).
+  { unfold hdr_payload. rewrite Hp. cbn [obind]. rewrite Hs. rewrite <- Hnc. reflexivity. }
+  rewrite Hpay' in Hpay. apply some_inj in Hpay.
+  assert (Hoff0 : 0 <= br_off b) by (rewrite Hoff; apply blen_nonneg).
+  rewrite <- Hoff in Hline, Hle, Hsub.
+  rewrite (accepted_box_readable nf f b h shp Hnf Hoff0); try assumption.
+  - rewrite Hline. rewrite Hpay, <- Hn, Hsub. reflexivity.
+  - rewrite Hline. exact Hp.
+  - rewrite Hline. lia.
+Qed.
+
+(* ---- end to end: a file accepted by the shape check, a box whose header
+        check passes and whose recorded offset is the start of its tile ---- *)
+
+Lemma insert_by_off_In (b : boxrec) : forall l x,
+  In x (insert_by_off b l) -> x = b \/ In x l.
+Proof.
+  induction l as [|y l IH]; intros x H; cbn [insert_by_off] in H.
+  - destruct H as [H|[]]. left. symmetry. exact H.
+  - destruct (br_off b <? br_off y).
+    + destruct H as [H|H]; [left; symmetry; exact H|right; exact H].
+    + destruct H as [H|H]; [right; left; exact H|].
+      destruct (IH x H) as [H'|H']; [left; exact H'|right; right; exact H'].
+Qed.
+
+Lemma sort_by_off_In : forall l x, In x (sort_by_off l) -> In x l.
+Proof.
+  induction l as [|b l IH]; intros x H; [exact H|].
+  unfold sort_by_off in H. cbn [fold_right] in H. fold (sort_by_off l) in H.
+  apply insert_by_off_In in H. destruct H as [H|H]; [left; symmetry; exact H|right; apply IH; exact H].
+Qed.
+
+Lemma file_boxes_In : forall c name b, In b (file_boxes c name) ->
+  In b (cell_boxes c) /\ br_file b = name.
+Proof.
+  intros c name b H. unfold file_boxes in H. apply sort_by_off_In in H.
+  apply filter_In in H. destruct H as [H1 H2]. split; [exact H1|].
+  apply bytes_eqb_eq. exact H2.
+Qed.
+
+Lemma box_valid_shape : forall b h shp, box_valid b ->
+  h_lo h = br_lo b -> h_hi h = br_hi b -> hdr_shape h = Some shp ->
+  shp = box_shape (br_lo b) (br_hi b) /\ Forall (fun d => 0 <= d) shp.
+Proof.
+  intros b h shp (Hlen & _ & HF) Hlo Hhi Hs.
+  unfold hdr_shape, np_binop in Hs. rewrite Hlo, Hhi, <- Hlen, Nat.eqb_refl in Hs.
+  injection Hs as <-. split; [reflexivity|].
+  clear Hlen Hlo Hhi. induction HF as [|l x lo hi Hlx _ IH]; cbn [zip_with]; constructor; [lia|exact IH].
+Qed.
+
+Theorem accepted_file_readable : forall nf ld c name f,
+  lookup name (ld_files ld) = Some f -> file_boxes c name <> [] ->
+  shape_ok_file nf ld c name = true ->
+  0 <= nf -> Forall box_valid (tl (file_boxes c name)) ->
+  payload_nonneg (readline f 0) ->
+  exists tiles : list (bytes * bytes),
+    length tiles = length (file_boxes c name) /\
+    f = concat (map tile_bytes tiles) /\
+    forall k b,
+      nth_error (file_boxes c name) k = Some b ->
+      br_off b = tile_off tiles k ->
+      header_ok nf ld b = true -> box_valid b ->
+      read_box f (br_off b) all_fields =
+        Some {| a_shape := box_shape (br_lo b) (br_hi b) ++ [nf];
+                a_data := snd (nth k tiles ([], [])) |}.
+Proof.
+  intros nf ld c name f Hl Hne Hs Hnf Hv Hh.
+  destruct (shape_ok_file_tiles nf ld c name f Hl Hne Hs Hnf Hv Hh)
+    as (tiles & Hlen & Hcat & Hok & HF2 & Hfst).
+  exists tiles. split; [exact Hlen|]. split; [exact Hcat|].
+  intros k b Hk Hoff Hhok Hbv.
+  assert (Hk' : (k < length tiles)%nat).
+  { rewrite Hlen. apply nth_error_Some. rewrite Hk. discriminate. }
+  apply nth_error_In in Hk. apply file_boxes_In in Hk. destruct Hk as [_ Hname].
+  destruct (header_ok_sound nf ld b Hhok) as (f' & h & Hl' & Hoff0 & Hp & Hlo & Hhi & Hnc & shp & Hshp).
+  rewrite Hname, Hl in Hl'. injection Hl' as <-.
+  destruct (box_valid_shape b h shp Hbv Hlo Hhi Hshp) as [Eshp Hnn]. rewrite <- Eshp.
+  pose proof (tiles_readline nf tiles _ f Hcat Hfst HF2 k Hk') as Hline.
+  apply (tiled_box_readable nf f tiles k b h shp Hcat Hk'); try assumption.
+  - rewrite Forall_forall in Hok. apply Hok. apply nth_In. exact Hk'.
+  - rewrite <- Hline, <- Hoff. exact Hp.
+Qed.
+
+(* ------------------------------------------------------------------ *)
+Print Assumptions taste_good_inv.
+Print Assumptions open_levels_inv.
+Print Assumptions taste_rejects_missing_header.
+Print Assumptions taste_rejects_missing_file.
+Print Assumptions check_headers_sound.
+Print Assumptions walk_shape_tiled.
+Print Assumptions walk_shape_tiled_pos.
+Print Assumptions shape_ok_file_tiles.
+Print Assumptions shape_ok_file_tiled_strong.
+Print Assumptions shape_ok_file_tiled.
+Print Assumptions shape_ok_file_tiled_single.
+Print Assumptions shape_ok_file_length.
+Print Assumptions shape_ok_file_newline.
+Print Assumptions shape_ok_file_length_multi.
+Print Assumptions check_shape_sound.
+Print Assumptions check_shape_box.
+Print Assumptions take_comps_all.
+Print Assumptions accepted_box_readable.
+Print Assumptions tiled_payload_available.
+Print Assumptions tiles_readline.
+Print Assumptions tiled_box_readable.
+Print Assumptions accepted_file_readable.
